@@ -1250,6 +1250,10 @@ class T:
             v = coerce(value.f, tag)
         else:
             v = coerce(num(value), tag)
+        if getattr(self, "stride0", False):
+            # an EXPANDED tensor (x.expand(n, ...)) has one underlying row: writing one row in place writes them all
+            self.f = lambda t: v
+            return
         self.f = lambda t: z3.If(t == i, v, f(t))
 
     # gather / scatter along time axis (dim 0)
@@ -1321,7 +1325,15 @@ class T:
         if not LAYOUT_FREE[0] and self.tlen is None and isinstance(self.eshape, Shape) and len(a) == len(self.eshape.items) + 1:
             # x.expand(n, *x.shape): one new leading axis of length n along which the tensor is repeated - a time axis
             v, n = self.f, self.nan
-            return T(lambda t: v, self.dtype, wrap(num(a[0])), "first", self.eshape, (lambda t: n) if n is not None else None)
+            r = T(lambda t: v, self.dtype, wrap(num(a[0])), "first", self.eshape, (lambda t: n) if n is not None else None)
+            r.stride0 = True  # a view with stride 0 along the new axis: see __setitem__
+            return r
+        if not LAYOUT_FREE[0] and self.tlen is not None and self.taxis == "first" and _is_one(self.tlen) and len(a) >= 1:
+            # x.unsqueeze(0).expand(n, *shape): the unit leading axis is broadcast to n rows that share one underlying row
+            f0, n0 = self.f, self.nan
+            r = T(lambda t: f0(z3.IntVal(0)), self.dtype, wrap(num(a[0])), "first", self.eshape, (lambda t: n0(z3.IntVal(0)) if callable(n0) else n0) if n0 is not None else None)
+            r.stride0 = True
+            return r
         return self._layout_free("expand")
 
     def flatten(self, *a):
